@@ -222,7 +222,7 @@ pub fn run_idle(seed: u64) -> String {
         plan.push((*rng.pick(&[0u64, 20, 100, 400]), rng.below(400), rng.below(3)));
     }
     let res: Result<Result<(), String>, _> = rt.block_on(async move {
-        tokio::time::timeout(Duration::from_secs(120), async move {
+        tokio::time::timeout(Duration::from_secs(600), async move {
             for (t, (spin, delay_us, order)) in plan.into_iter().enumerate() {
                 let (cio, sio) = tokio::io::duplex(65536);
                 let server = tokio::spawn(async move {
@@ -282,10 +282,11 @@ pub fn run_idle(seed: u64) -> String {
                 });
                 let _ = a.await;
                 let _ = b.await;
-                match tokio::time::timeout(Duration::from_secs(3), cdrv).await {
+                // (a lost wake-up hangs for ever; the limit only has to be out of reach of a machine that is merely busy)
+                match tokio::time::timeout(Duration::from_secs(25), cdrv).await {
                     Err(_) => {
                         return Err(format!(
-                            "C20 client connection did not finish within 3 s after its last handles were dropped on other threads (trial {}, spin {} us, delay {} us, order {})",
+                            "C20 client connection did not finish within 25 s after its last handles were dropped on other threads (trial {}, spin {} us, delay {} us, order {})",
                             t, spin, delay_us, order
                         ))
                     }
